@@ -25,7 +25,7 @@ func init() {
 			"(healthy got everything in order; what the stalled one got is the published sequence minus runs that begin at a key-frame packet and end just before one). " +
 			"distinct = decision-sequence hash; non-trivial = at least one pre-emption or stall",
 		Assumptions:    []string{"the limit (1000) and 'one GOP' are taken from the property statement, not from the code", "video packets are single NAL units (key-frame start == key-frame packet)"},
-		RequiredProbes: []string{"c04.discard-started", "c04.discard-ended", "c04.backlog-over-limit"},
+		RequiredProbes: []string{"c04.discard-started", "c04.discard-ended", "c04.backlog-over-limit", "c04.flv-consumer-panics"},
 	})
 }
 
@@ -74,7 +74,9 @@ func (c *c04Cons) Consume(p media.Pack) {
 	}
 	c.mu.Lock()
 	c.consumed++
-	c.got = append(c.got, p.(*rtp.Packet))
+	if pk, ok := p.(*rtp.Packet); ok {
+		c.got = append(c.got, pk)
+	}
 	k := c.consumed
 	c.mu.Unlock()
 	if c.panicAt > 0 && k == c.panicAt {
@@ -193,8 +195,13 @@ func buildC04Media(tier string) sim.Scenario {
 			joinAt = 200 + tp.Choose(N-400)
 			joiner = &c04Cons{w: w, name: "joiner", yieldIn: tp.Bool()}
 		}
+		panickerFLV := false
 		if tp.Bool() {
 			panicker = &c04Cons{w: w, name: "panicker", panicAt: 1 + tp.Choose(N/2)}
+			panickerFLV = tp.OneIn(3)
+			if panickerFLV {
+				panicker.panicAt = 1 + tp.Choose(20) // tags: metadata, configuration, then one per frame
+			}
 		}
 		w.Logf("c04 G=%d N=%d audio=%v phases=%v forever=%v panicker=%v", G, N, withAudio, stall.phases, forever, panicker != nil)
 
@@ -203,7 +210,12 @@ func buildC04Media(tier string) sim.Scenario {
 		healthyCID = s.StartConsumeNoGopCache(healthy, media.RTPPacket, "healthy")
 		stallCID = s.StartConsumeNoGopCache(stall, media.RTPPacket, "stalled")
 		if panicker != nil {
-			panicCID = s.StartConsumeNoGopCache(panicker, media.RTPPacket, "panicker")
+			if panickerFLV { // a viewer of the converted (FLV) output that panics: it must be detached from the FLV side as well
+				w.Probe("c04.flv-consumer-panics")
+				panicCID = s.StartConsumeNoGopCache(panicker, media.FLVPacket, "panicker")
+			} else {
+				panicCID = s.StartConsumeNoGopCache(panicker, media.RTPPacket, "panicker")
+			}
 		}
 
 		done := make(chan struct{})
@@ -371,14 +383,14 @@ func buildC04Media(tier string) sim.Scenario {
 			}
 		}
 		// panicker: detached and closed, nobody else affected
-		if panicker != nil && len(panicker.got) >= panicker.panicAt {
+		if panicker != nil && panicker.consumed >= panicker.panicAt {
 			if panicker.closed == 0 {
 				w.Fail("C04/panicker-not-closed", "the consumer that panicked at its packet %d was never closed", panicker.panicAt)
 			}
 			if s.VerifQueueLen(panicCID) >= 0 {
 				w.Fail("C04/panicker-not-detached", "the consumer that panicked is still registered on the stream")
 			}
-			if len(panicker.got) > panicker.panicAt {
+			if panicker.consumed > panicker.panicAt {
 				w.Fail("C04/panicker-not-detached", "the consumer kept receiving after its panic")
 			}
 		}
